@@ -314,12 +314,25 @@ def non_interchange(j):
     return None
 
 
-def valid_stream(seed, n, op):
+HIST_POOL = [3, -1, 2.5, 0.1, 'abc', 'to be announced', '2020-01-02', '1/3', None, True, [1], [2.5, 1], {'a': 1}, {}, [], 10 ** 20]
+
+
+def with_history(scens, seed, share=0.3):
+    """earlier conversions to the SAME type in the same interpreter (values of all kinds: some are taken by a later union
+    member, some are refused): a memoised converter must not remember them"""
+    r = random.Random(seed * 7919 + 13)
+    for s in scens:
+        if s.get('op') in ('from_data', 'roundtrip', 'convert2') and 'ty' in s and 'pre' not in s and r.random() < share:
+            s['pre'] = [{'ty': s['ty'], 'val': gen.ENC.enc(r.choice(HIST_POOL)), 'handlers': s.get('handlers')} for _ in range(r.randint(1, 3))]
+    return scens
+
+
+def valid_stream(seed, n, op, history=0.3):
     """mostly-valid (type, value) scenarios (round trips need accepted values)"""
     out = []
     k = 0
     while len(out) < n and k < 6:
-        for s in gen.scenarios_conv(seed + 97 * k, n, op=op):
+        for s in gen.scenarios_conv(seed + 97 * k, n, op=op, history=history):
             if s['stream'] == 'valid' or len(out) % 7 == 0:
                 out.append(s)
         k += 1
@@ -340,7 +353,8 @@ PLUGS = {
                 with_oracles(gen.scenarios_cond(seed, sizes(tier, 700, 10000)), ['c03'], op='try_collect') +
                 with_oracles(gen.scenarios_shapes(seed, sizes(tier, 500, 8000), op='try_collect'), ['c03']) +
                 with_oracles(gen.scenarios_tuplelayout(seed, sizes(tier, 500, 8000), op='try_collect'), ['c03']) +
-                with_oracles(gen.scenarios_tagged(seed + 4, sizes(tier, 500, 8000)), ['c03'], op='try_collect'),
+                with_oracles(gen.scenarios_tagged(seed + 4, sizes(tier, 500, 8000)), ['c03'], op='try_collect') +
+                with_oracles(gen.scenarios_inherited_hook(seed, sizes(tier, 300, 4000)), ['c03']),
                 project=proj_try_collect, oracles=['c03'], disagreement_is_failure=False),
     'C04': dict(streams=lambda seed, tier: conv_stream(seed, sizes(tier, 1500, 30000), 'from_data', ['c04']) +
                 [dict(s, oracles=['c04']) for s in matrix_stream(seed)] +
@@ -348,13 +362,14 @@ PLUGS = {
                 with_oracles(gen.scenarios_shapes(seed, sizes(tier, 400, 6000), op='from_data'), ['c04']) +
                 with_oracles(gen.scenarios_cond(seed, sizes(tier, 500, 8000)), ['c04']) +
                 with_oracles(gen.scenarios_tagged(seed, sizes(tier, 600, 8000)), ['c04'], op='from_data') +
-                with_oracles(gen.scenarios_unsupported(seed, sizes(tier, 300, 3000)), ['c04']),
+                with_oracles(gen.scenarios_unsupported(seed, sizes(tier, 300, 3000)), ['c04']) +
+                with_oracles(gen.scenarios_inherited_hook(seed, sizes(tier, 200, 3000), op='from_data'), ['c04']),
                 project=proj_verdict_value, oracles=['c04'], disagreement_is_failure=False),
-    'C05': dict(streams=lambda seed, tier: valid_stream(seed, sizes(tier, 2000, 30000), 'roundtrip') +
+    'C05': dict(streams=lambda seed, tier: valid_stream(seed, sizes(tier, 2000, 30000), 'roundtrip') + gen.scenarios_union_history(seed, sizes(tier, 250, 3000)) +
                 [dict(s, op='roundtrip') for s in gen.scenarios_tuplelayout(seed, sizes(tier, 400, 6000))] +
                 [dict(s, op='roundtrip') for s in gen.scenarios_tagged(seed + 4, sizes(tier, 500, 8000))],
                 project=proj_full, oracles=[], disagreement_is_failure=True, post_oracle=rt_oracle),
-    'C06': dict(streams=lambda seed, tier: valid_stream(seed, sizes(tier, 2000, 30000), 'convert2') +
+    'C06': dict(streams=lambda seed, tier: valid_stream(seed, sizes(tier, 2000, 30000), 'convert2', history=0.4) + gen.scenarios_union_history(seed, sizes(tier, 300, 4000), op='convert2') +
                 [dict(s, op='convert2') for s in gen.scenarios_tuplelayout(seed, sizes(tier, 500, 8000))] +
                 twin_stream(seed, sizes(tier, 100, 1500), op='convert2'),
                 project=proj_full, oracles=[], disagreement_is_failure=True, post_oracle=rt_oracle),
@@ -376,8 +391,8 @@ PLUGS = {
     'C10': dict(streams=lambda seed, tier: gen.scenarios_history(seed, sizes(tier, 600, 8000), threads=4) + gen.scenarios_lru(seed, sizes(tier, 400, 5000)) +
                 twin_stream(seed, sizes(tier, 150, 2000)),
                 project=proj_full, oracles=['c10'], disagreement_is_failure=True),
-    'C11': dict(streams=lambda seed, tier: union_stream(seed, sizes(tier, 1200, 20000)) + twin_stream(seed, sizes(tier, 100, 1500)) +
-                union_stream(seed + 7, sizes(tier, 300, 5000), op='roundtrip') +
+    'C11': dict(streams=lambda seed, tier: with_history(union_stream(seed, sizes(tier, 1200, 20000)), seed) + twin_stream(seed, sizes(tier, 100, 1500)) +
+                with_history(union_stream(seed + 7, sizes(tier, 300, 5000), op='roundtrip'), seed + 1, 0.5) + gen.scenarios_union_history(seed, sizes(tier, 250, 3000)) +
                 [sc for sc in gen.scenarios_tagged(seed + 4, sizes(tier, 1200, 15000)) if 'union' in sc['ty']],
                 project=proj_verdict_value, oracles=['c11'], disagreement_is_failure=True),
     'C12': dict(streams=lambda seed, tier: gen.scenarios_tagged(seed, sizes(tier, 1500, 25000)),
@@ -385,7 +400,7 @@ PLUGS = {
     'C13': dict(streams=lambda seed, tier: gen.scenarios_cond(seed, sizes(tier, 2000, 30000)) + gen.scenarios_cond_twins(seed, sizes(tier, 600, 8000)),
                 project=proj_full, oracles=['c13'], disagreement_is_failure=True),
     'C14': dict(streams=lambda seed, tier: with_oracles(gen.scenarios_construct(seed, sizes(tier, 1500, 25000)), ['c14']) +
-                gen.scenarios_tuplelayout(seed + 2, sizes(tier, 400, 6000)),
+                gen.scenarios_tuplelayout(seed + 2, sizes(tier, 400, 6000)) + gen.scenarios_inherited_hook(seed, sizes(tier, 200, 3000), op='from_data'),
                 project=proj_full, oracles=['c14'], disagreement_is_failure=True),
     'C15': dict(streams=lambda seed, tier: gen.scenarios_process(seed, sizes(tier, 800, 12000), generic_share=0.0) +
                 [s for s in conv_stream(seed, sizes(tier, 3000, 40000), 'from_data', []) if '"cls"' in json.dumps(s['ty'])] +
